@@ -7,6 +7,13 @@ ALL = ["C%02d" % i for i in range(1, 21)]
 
 # id -> (level category, technique, level text, level note, design ref)
 CHECKS = {
+    "C10": (
+        "model_checking",
+        "bounded-exhaustive enumeration of abstract grammar specifications x concrete renderings; every accessor compared with the abstract specification, spans sliced out of the text, digest equal across all renderings",
+        "Abstract specification = grammar (all reachable grammars of a small universe + the seed grammars) x every set of <= 2 of twelve optional declarations (%token, %start, precedence lines, %prec, %epp with escaped quotes, %avoid_insert, %expect, %expect-rr, %expect-unused with an unused rule, %parse-param, %parse-generics, programs section) x five yacc kinds (action types and actions with nested braces and non-ASCII text where the kind has them; %implicit_tokens for Eco). Each is rendered in 135-144 layouts: three quoting styles, six gap styles (blank, newline, tab, // comment, /* */ comment, multi-line comment whose second line starts with a slash), declaration order, %empty, %grmtools header (then parsed with from_str). For every rendering every accessor named in the property is compared with the abstract specification (rule order, productions in source order, symbols, token set and names, dense numbering and range of every index, start production, one unnamed end-of-input token, precedences by relative level, %prec, %epp, avoid-insert, expect counts, action text and types, parse-param, generics, programs, the documented Eco rewrite), every rule / token / production span must slice exactly the defining text, and all renderings of one specification must give the same digest.",
+        "Action code and types are compared modulo comments and whitespace. The action span is only required to lie at its action (the repository's test pins its exact offsets).",
+        "DESIGN.md 3/C10",
+    ),
     "C11": (
         "model_checking",
         "bounded-exhaustive enumeration of abstract lex specifications x renderings; built definition compared field by field and by lexing behaviour with the abstract specification",
